@@ -12,7 +12,7 @@ import (
 
 func init() {
 	register(&propCheck{id: "C07", needRoot: true, run: checkC07,
-		explanation: "Decided statically: (1) FLOW — in the index build the version the index is labelled with and the version of the tree it is built from must be the same value (or tied by a dominating equality test); today they are two different variables: KNOWN FINDING (stale indexed reads after opening an older version once); (2) DOM — a value taken from the index is returned only under `last-updated version <= queried version`, and absence only under `queried version == latest`; (3) OWN/ORDER — the in-memory index cache is filled only by the read-through lookup and by Commit after the physical write succeeded, and the index key-space formatter is used only by the index reader/writers; (4) PASS — rollback-by-overwrite, import and every load reach the rebuild decision when the index is enabled; every path that installs a new working root records the overlay entry; a completed commit clears the overlay; (5) ERR — the walk that deletes a stale index and the walk that rebuilds it consult the iterator's Error() (not a Close() that overwrites the sticky error) before success: otherwise a storage fault leaves stale entries under a label that says 'complete'. NOT decided: equality of indexed and tree-walk answers (value-level), correctness of the two-cursor merge."})
+		explanation: "Decided statically: (1) FLOW — in the index build the version the index is labelled with and the version of the tree it is built from must be the same value (or tied by a dominating equality test); today they are two different variables: KNOWN FINDING (stale indexed reads after opening an older version once); (2) DOM — a value taken from the index is returned only under `last-updated version <= queried version`, and absence only under `queried version == latest`; (3) OWN/ORDER — the in-memory index cache is filled only by the read-through lookup and by Commit after the physical write succeeded, and the index key-space formatter is used only by the index reader/writers; (4) PASS — rollback-by-overwrite, import and every load reach the rebuild decision when the index is enabled; every path that installs a new working root records the overlay entry; a completed commit clears the overlay; (5) ERR — the walk that deletes a stale index and the walk that rebuilds it consult the iterator's Error() (not a Close() that overwrites the sticky error) before success: otherwise a storage fault leaves stale entries under a label that says 'complete'. NOT decided: equality of indexed and tree-walk answers (value-level), correctness of the two-cursor merge. Rules added in the later seeding rounds (each listed with what it decides in this file's rule table) are described in DESIGN.md §3 \"Third and fourth seeding rounds\" and Appendix C3–C5."})
 }
 
 // fastDisabledEdge: the CFG edge on which the fast index is switched off.
